@@ -316,7 +316,7 @@ def monitors(props, start_snap, start_dump, oplist, leaf, serial_cache):
                                     else 'c06:two-successes-same-consumer-generation:%s' % ('null' if key[1] is None else 'int'),
                                     'requests %d and %d both succeeded carrying consumer_generation %s of %s' % (j, i, key[1], key[0])))
                     seen[key] = i
-    if any(p in props for p in ('C05', 'C06', 'C07', 'C08', 'C09')):
+    if any(p in props for p in ('C04', 'C05', 'C06', 'C07', 'C08', 'C09')):
         ser0 = 'c07:' if any(p in props for p in ('C05', 'C06', 'C07')) else '%s:race:' % sorted(props)[0].lower()
         succ = [i for i in range(n) if ok(sts[i])]
         final = core(leaf['dump'])
